@@ -5,7 +5,7 @@ CONSTANTS
   Full = FALSE
   MaxLoop = 0
   Dump = TRUE
-INVARIANT CastCharacterised
+INVARIANT CastAgrees
 INVARIANT CastIdentityInRange
 INVARIANT PublishCast
 CHECK_DEADLOCK FALSE
